@@ -73,6 +73,7 @@ struct Gen {
   std::vector<int> yvals, kvals;   // 32-byte vector vregs and 64-bit mask vregs (AVX functions; vsize 32 resp. -8)
   std::vector<int> counters;  // loop counters (never written by ordinary instructions)
   int idxTmp = -1;            // 64-bit temporary used for computed indices
+  const std::vector<int>* skel = nullptr;   // systematic CFG skeleton: terminator code of every block but the last (see skeleton_body)
   bool fixed_heavy = false;   // program class dominated by fixed-register instructions, calls and loops (moves/swaps on back edges)
   int jtIdx = -1, jtOff = -1, jtTgt = -1;   // temporaries of jump-table dispatch (never observed otherwise)
   Gen(Rng& r_, Prog& p_) : r(r_), p(p_) {}
@@ -191,9 +192,33 @@ struct Gen {
     }
   }
 
+  // Systematic CFG skeleton of B blocks: block i (i < B-1) ends with terminator t = (*skel)[i]: 0 fall through,
+  // 1..B conditional branch to block t-1, B+1..2B unconditional jump to block t-B-1; branches that do not go forward are
+  // guarded by a counter so that the program terminates. The last block leaves the function.
+  void skeleton_body() {
+    int B = int(skel->size()) + 1; std::vector<int> lbl; for (int i = 0; i < B; i++) lbl.push_back(p.nlabels++);
+    for (int i = 0; i < B; i++) {
+      Ins l; l.k = K_LABEL; l.lbl = lbl[size_t(i)]; add(l);
+      int nops = 2 + int(r.below(3)); for (int q = 0; q < nops; q++) one_op();
+      if (i == B - 1) break;
+      int t = (*skel)[size_t(i)]; if (t == 0) continue;
+      bool cond = t <= B; int j = cond ? t - 1 : t - B - 1; bool forward = j > i;
+      int skip = -1;
+      if (!forward) {            // at most K more executions of this edge
+        int c = counters.empty() ? -1 : counters[size_t(i) % counters.size()]; if (c < 0) continue;
+        skip = p.nlabels++;
+        Ins tt; tt.k = K_TEST; tt.a = c; tt.b = c; tt.w = 8; add(tt); Ins jz; jz.k = K_JCC; jz.cc = 4; jz.lbl = skip; add(jz);
+        Ins d; d.k = K_UNARY; d.op = U_DEC; d.d = c; d.w = 8; add(d);
+      }
+      if (cond) { cmp_any(); Ins jc; jc.k = K_JCC; jc.cc = int(r.below(16)); jc.lbl = lbl[size_t(j)]; add(jc); }
+      else { Ins jm; jm.k = K_JMP; jm.lbl = lbl[size_t(j)]; add(jm); }
+      if (skip >= 0) { Ins s; s.k = K_LABEL; s.lbl = skip; add(s); }
+    }
+  }
+
   void build(int nvals, int nitems, int flowpct, int nvec = 0) {
     newv(8);                                        // vreg 0: pointer
-    int nloops = fixed_heavy ? 2 + int(r.below(4)) : int(r.below(4));
+    int nloops = skel ? 4 : fixed_heavy ? 2 + int(r.below(4)) : int(r.below(4));
     for (int j = 0; j < nloops; j++) counters.push_back(newv(8));
     idxTmp = newv(8);
     if (g_features & 64) { jtIdx = newv(8); jtOff = newv(8); jtTgt = newv(8); }
@@ -227,6 +252,7 @@ struct Gen {
     // repairs fixes/C05-shared-assignment-union-find.patch and C05-indirect-jump-single-successor-scratch.patch
     static const int modes[8] = {0, 2, 3, 4, 6, 1, 5, 7};
     int jt_mode = g_jt_mode >= 0 ? g_jt_mode : modes[r.below((g_features & 256) ? 8 : 5)]; p.jt_mode = jt_mode;
+    if (skel) { skeleton_body(); nitems = 0; }
     for (int n = 0; n < nitems; n++) {
       uint32_t x = r.below(100);
       if (int(x) < flowpct) {
@@ -525,15 +551,15 @@ static const uint32_t kRetV = 2000000;         // pseudo virtual register holdin
 static const uint32_t kFlagGroup = 15;
 
 struct Arg { std::string name; int w; std::string raw; };   // raw non-empty: raw RW facts of a register operand (classified in Coq)
-struct Desc { bool ok = true; std::string why; std::string key; std::vector<Arg> uses, defs; std::string jin = "other 0 - 0"; std::vector<std::vector<std::string>> lists; };   // lists: register-list operand groups
+struct Desc { bool ok = true; std::string why; std::string key; std::vector<Arg> uses, defs; std::string jin = "0 0 - 0"; std::vector<std::vector<std::string>> lists; };   // lists: register-list operand groups
 
 static int msb_width(uint64_t mask) { int w = 0; while (mask) { w++; mask >>= 1; } return w; }
 static uint64_t low_mask(uint32_t n) { return n >= 64 ? ~0ull : ((1ull << n) - 1); }
 static int contig_width(uint64_t mask) { int w = 0; while (mask & 1) { w++; mask >>= 1; } return w; }
 
 struct Dumper {
-  BaseCompiler& cc; FuncNode* func; bool a64;
-  Dumper(BaseCompiler& c, FuncNode* f) : cc(c), func(f), a64(c.arch() == Arch::kAArch64) {}
+  BaseCompiler& cc; FuncNode* func; bool a64; bool x32; int aw;      // aw: address / native register width in bytes
+  Dumper(BaseCompiler& c, FuncNode* f) : cc(c), func(f), a64(c.arch() == Arch::kAArch64), x32(c.arch() == Arch::kX86), aw(c.arch() == Arch::kX86 ? 4 : 8) {}
 
   bool is_virt(uint32_t id) const { return Operand::is_virt_id(id); }
   uint32_t vindex(uint32_t id) const { return Operand::virt_id_to_index(id); }
@@ -548,7 +574,7 @@ struct Dumper {
   static std::string flagname(bool target, int bit) { char b[48]; if (target) snprintf(b, sizeof b, "r%u.%d", kFlagGroup, bit); else snprintf(b, sizeof b, "v%u", kFlagBase + uint32_t(bit)); return b; }
 
   // is this memory operand a frame slot ([rsp + disp], no index)?
-  static bool is_slot(const x86::Mem& m) { return m.has_base_reg() && !m.has_index() && m.base_id() == x86::Gp::kIdSp && m.base_type() == RegType::kGp64 && !m.is_reg_home() && !m.has_segment(); }
+  static bool is_slot(const x86::Mem& m) { return m.has_base_reg() && !m.has_index() && m.base_id() == x86::Gp::kIdSp && (m.base_type() == RegType::kGp64 || m.base_type() == RegType::kGp32) && !m.is_reg_home() && !m.has_segment(); }
   static bool is_slot_a64(const a64::Mem& m) { return m.has_base_reg() && !m.has_index() && m.base_id() == a64::Gp::kIdSp && m.base_type() == RegType::kGp64 && !m.is_reg_home() && m.is_fixed_offset(); }
   // control flow class of an instruction (a64: the same small table the allocator uses)
   InstControlFlow cf_of(InstId id) const {
@@ -583,12 +609,10 @@ struct Dumper {
     // idiom_ro: the written bytes keep their value (and/or r,r; add/or/xor/sub/shift/rotate r,0) - only the flags change
     // inputs of the idiom table RwRuleModel.idiom_of (decided on the SOURCE instruction; the key ties both sides)
     if (!target) {
-      idioms = "other 0 - 0";
+      idioms = "0 0 - 0";
       if (!a64) {
-        const char* tag = id == x86::Inst::kIdXor ? "xor" : id == x86::Inst::kIdSub ? "sub" : id == x86::Inst::kIdOr ? "or" : id == x86::Inst::kIdAnd ? "and" : id == x86::Inst::kIdAdd ? "add" :
-                          id == x86::Inst::kIdShl ? "shl" : id == x86::Inst::kIdShr ? "shr" : id == x86::Inst::kIdSar ? "sar" : id == x86::Inst::kIdRol ? "rol" : id == x86::Inst::kIdRor ? "ror" :
-                          (id == x86::Inst::kIdPxor || id == x86::Inst::kIdVpxor || id == x86::Inst::kIdVpxord || id == x86::Inst::kIdKxorq) ? "pxor" : (id == x86::Inst::kIdPsubd || id == x86::Inst::kIdVpsubd) ? "psubd" : (id == x86::Inst::kIdPcmpeqd || id == x86::Inst::kIdVpcmpeqd) ? "pcmpeqd" :
-                          (id == x86::Inst::kIdPand || id == x86::Inst::kIdVpand || id == x86::Inst::kIdVpandd || id == x86::Inst::kIdKandq) ? "pand" : (id == x86::Inst::kIdPor || id == x86::Inst::kIdVpor || id == x86::Inst::kIdKorq) ? "por" : "other";
+        // the idiom class is looked up by instruction id in the generated table coq/gen/C05IdiomTags.v (extracted)
+        char tagb[24]; snprintf(tagb, sizeof tagb, "%u", unsigned(id)); const char* tag = tagb;
         bool same2 = (ops.size() == 2 && ops[0].is_reg() && ops[1].is_reg() && ops[0] == ops[1]) ||
                      (ops.size() == 3 && ops[0].is_reg() && ops[0] == ops[1] && ops[0] == ops[2]);     // VEX three-operand form, all the same register
         bool imm2 = ops.size() == 2 && ops[0].is_reg() && ops[1].is_imm();
@@ -650,12 +674,12 @@ struct Dumper {
         if (m.has_base_reg()) {
           if (target == is_virt(m.base_id())) { d.ok = false; d.why = "memory base register kind"; return d; }
           if (oi.is_mem_base_write()) { d.ok = false; d.why = "base write-back not modelled"; return d; }
-          d.uses.push_back({regname(RegGroup::kGp, m.base_id()), 8});
+          d.uses.push_back({regname(RegGroup::kGp, m.base_id()), aw});
         }
         if (m.has_index_reg()) {
           if (m.index_type() != RegType::kGp64 && m.index_type() != RegType::kGp32) { d.ok = false; d.why = "vector index not modelled"; return d; }
           if (target == is_virt(m.index_id())) { d.ok = false; d.why = "memory index register kind"; return d; }
-          d.uses.push_back({regname(RegGroup::kGp, m.index_id()), 8});
+          d.uses.push_back({regname(RegGroup::kGp, m.index_id()), aw});
         }
       } else if (op.is_imm()) {
         snprintf(kb, sizeof kb, "|I%lld", (long long)op.as<Imm>().value()); d.key += kb;
@@ -829,7 +853,7 @@ static void dump_source(Dumper& D, std::vector<PreNode>& pre, std::map<BaseNode*
         snprintf(b, sizeof b, " %zu", defs.size()); s += b; for (auto& a : defs) { snprintf(b, sizeof b, " %s %d", a.name.c_str(), a.w); s += b; }
         out.S.push_back(s); break; }
       case NodeType::kLabel: snprintf(b, sizeof b, "label %u", n->as<LabelNode>()->label_id()); out.S.push_back(b); break;
-      case NodeType::kSentinel: snprintf(b, sizeof b, "ret 1 v%u 8", kRetV); out.S.push_back(b); break;
+      case NodeType::kSentinel: snprintf(b, sizeof b, "ret 1 v%u %d", kRetV, D.aw); out.S.push_back(b); break;
       case NodeType::kFuncRet: {
         FuncRetNode* r = n->as<FuncRetNode>();
         if (r->op_count() >= 1 && r->op(0).is_reg()) { const Reg& rr = r->op(0).as<Reg>(); snprintf(b, sizeof b, "mov v%u v%u %u", kRetV, D.vindex(rr.id()), rr.size()); out.S.push_back(b); }
@@ -842,11 +866,11 @@ static void dump_source(Dumper& D, std::vector<PreNode>& pre, std::map<BaseNode*
         for (uint32_t ai = 0; ai < inv->arg_count(); ai++) {
           const Operand& op = inv->arg(ai, 0);
           if (!op.is_reg() || !fd.arg(ai) || fd.arg(ai).is_indirect()) { out.ok = false; out.why = "call argument kind not modelled"; return; }
-          const Reg& r = op.as<Reg>(); if (r.reg_group() != RegGroup::kGp) { out.ok = false; out.why = "non-GP call argument not modelled"; return; }
+          const Reg& r = op.as<Reg>(); if (r.reg_group() != RegGroup::kGp && r.reg_group() != RegGroup::kVec) { out.ok = false; out.why = "call argument register group not modelled"; return; }
           int w = int(std::min<uint32_t>(r.size(), D.vsize_of(r.id()))); pn.argw.push_back(w); d.uses.push_back({D.regname(r.reg_group(), r.id()), w});
         }
         std::vector<Arg> defs;
-        if (fd.has_ret() && inv->ret(0).is_reg()) { const Reg& r = inv->ret(0).as<Reg>(); if (r.reg_group() != RegGroup::kGp) { out.ok = false; out.why = "non-GP call result not modelled"; return; }
+        if (fd.has_ret() && inv->ret(0).is_reg()) { const Reg& r = inv->ret(0).as<Reg>(); if (r.reg_group() != RegGroup::kGp && r.reg_group() != RegGroup::kVec) { out.ok = false; out.why = "call result register group not modelled"; return; }
           pn.retw = int(std::min<uint32_t>(r.size(), D.vsize_of(r.id()))); defs.push_back({D.regname(r.reg_group(), r.id()), pn.retw}); }
         for (auto& a : defs) d.defs.push_back(a);
         out.S.push_back("op call/" + d.key + D.items(d)); break; }
@@ -944,16 +968,18 @@ static void dump_target(Dumper& D, std::vector<PreNode>& pre, std::map<BaseNode*
         for (uint32_t ai = 0; ai < inv->arg_count(); ai++) {
           const FuncValue& fv = fd.arg(ai);
           if (fv.is_reg()) d.uses.push_back({D.regname(RegUtils::group_of(fv.reg_type()), fv.reg_id()), pn->argw[ai]});
-          else if (fv.is_stack()) { d.uses.push_back({Dumper::slotname(fv.stack_offset()), pn->argw[ai]}); clob.push_back({Dumper::slotname(fv.stack_offset()), 8}); }
+          else if (fv.is_stack()) { d.uses.push_back({Dumper::slotname(fv.stack_offset()), pn->argw[ai]}); clob.push_back({Dumper::slotname(fv.stack_offset()), D.aw}); }
           else { out.ok = false; out.why = "call argument location"; return; }
         }
         std::vector<Arg> defs; uint32_t retid = 0xFFFFFFFFu;
-        if (pn->retw) { const FuncValue& rv = fd.ret(0); if (!rv.is_reg() || RegUtils::group_of(rv.reg_type()) != RegGroup::kGp) { out.ok = false; out.why = "call result location"; return; }
-          retid = rv.reg_id(); defs.push_back({D.regname(RegGroup::kGp, retid), pn->retw}); }
+        uint32_t retvec = 0xFFFFFFFFu;
+        if (pn->retw) { const FuncValue& rv = fd.ret(0); if (!rv.is_reg()) { out.ok = false; out.why = "call result location"; return; }
+          RegGroup rg = RegUtils::group_of(rv.reg_type()); if (rg == RegGroup::kGp) retid = rv.reg_id(); else if (rg == RegGroup::kVec) retvec = rv.reg_id(); else { out.ok = false; out.why = "call result location"; return; }
+          defs.push_back({D.regname(rg, rv.reg_id()), pn->retw}); }
         // everything the callee may destroy: registers not preserved by its calling convention, the flags, its stack arguments
-        uint32_t ngp = D.a64 ? 31u : 16u, spid = D.a64 ? 31u : uint32_t(x86::Gp::kIdSp);
+        uint32_t ngp = D.a64 ? 31u : D.x32 ? 8u : 16u, spid = D.a64 ? 31u : uint32_t(x86::Gp::kIdSp);
         for (uint32_t id = 0; id < ngp; id++) if (id != spid && id != retid && !(fd.preserved_regs(RegGroup::kGp) & (1u << id))) defs.push_back({D.regname(RegGroup::kGp, id), 8});
-        for (uint32_t id = 0; id < 32; id++) if (!(fd.preserved_regs(RegGroup::kVec) & (1u << id))) defs.push_back({D.regname(RegGroup::kVec, id), 64});
+        for (uint32_t id = 0; id < 32; id++) if (id != retvec && !(fd.preserved_regs(RegGroup::kVec) & (1u << id))) defs.push_back({D.regname(RegGroup::kVec, id), 64});
         if (!D.a64) for (uint32_t id = 0; id < 8; id++) if (!(fd.preserved_regs(RegGroup::kMask) & (1u << id))) defs.push_back({D.regname(RegGroup::kMask, id), 8});
         for (int fb : {0, 1, 2, 3, 8, 9, 10}) if (!D.a64 || fb < 4) defs.push_back({Dumper::flagname(true, fb), 1});
         for (auto& c : clob) defs.push_back(c);
@@ -969,7 +995,7 @@ static void dump_target(Dumper& D, std::vector<PreNode>& pre, std::map<BaseNode*
             const FuncValue& rv = func->detail().ret(0);
             if (!rv.is_reg()) { out.ok = false; out.why = "return value location"; return; }
             auto ite = idx.find(func->end_node());
-            snprintf(b, sizeof b, "ret 1 %s 8", D.regname(RegUtils::group_of(rv.reg_type()), rv.reg_id()).c_str()); T(ite == idx.end() ? -1 : pre[ite->second].sidx, b);
+            snprintf(b, sizeof b, "ret 1 %s %d", D.regname(RegUtils::group_of(rv.reg_type()), rv.reg_id()).c_str(), D.aw); T(ite == idx.end() ? -1 : pre[ite->second].sidx, b);
           }
           break;
         }
@@ -1035,6 +1061,18 @@ static void gen_program(uint64_t seed, uint64_t index, Prog& p) {
   int nvec = r.chance(50) ? 0 : (r.chance(50) ? 1 + int(r.below(12)) : 14 + int(r.below(14)));
   if (fh) nvec = r.chance(70) ? 0 : nvec;
   Gen g(r, p); g.fixed_heavy = fh; g.build(nvals, nitems, flow, nvec);
+}
+
+// index -> (pressure level, number of blocks, terminators): all skeletons of 2..5 blocks x {8, 14, 15, 28} live GP values
+static const uint64_t kSkelCount = 4ull * (5 + 49 + 729 + 14641);
+static bool g_skel = false;
+static void gen_skeleton(uint64_t seed, uint64_t index, Prog& p, std::vector<int>& terms) {
+  static const int press[4] = {8, 14, 15, 28};
+  uint64_t k = index % kSkelCount; int nvals = press[k % 4]; k /= 4;
+  int B = 2; uint64_t n = 5; while (k >= n) { k -= n; B++; n = 1; for (int q = 0; q < B - 1; q++) n *= uint64_t(1 + 2 * B); }
+  terms.clear(); for (int q = 0; q < B - 1; q++) { terms.push_back(int(k % uint64_t(1 + 2 * B))); k /= uint64_t(1 + 2 * B); }
+  Rng r(seed * 1000003ull + index + 0x5CE1ull);
+  Gen g(r, p); g.skel = &terms; g.build(nvals, 0, 0, r.chance(30) ? 4 + int(r.below(14)) : 0);
 }
 
 typedef uint64_t (*JitFn)(uint64_t*, uint64_t, uint64_t, uint64_t, uint64_t, uint64_t, uint64_t, uint64_t, uint64_t, uint64_t, uint64_t, uint64_t, uint64_t);
@@ -1131,7 +1169,8 @@ static bool probe_program(const std::string& name, Prog& p) {
 
 static int run_one(uint64_t seed, uint64_t index, int inputs, bool verbose, const char* probe = nullptr) {
   Prog p;
-  if (probe) { if (!probe_program(probe, p)) { printf("P 0\nG unknown-probe\nE\n"); return 0; } } else gen_program(seed, index, p);
+  std::vector<int> skel_terms;
+  if (probe) { if (!probe_program(probe, p)) { printf("P 0\nG unknown-probe\nE\n"); return 0; } } else if (g_skel) gen_skeleton(seed, index, p, skel_terms); else gen_program(seed, index, p);
   if (const char* drop = getenv("C05_DROP")) {      // debugging aid (shrinking): remove the listed plain instructions
     std::vector<bool> d(p.ins.size(), false); for (const char* q = drop; *q;) { size_t i = strtoul(q, (char**)&q, 10); if (i < d.size()) d[i] = true; while (*q == ',') q++; }
     std::vector<Ins> keep;
@@ -1196,7 +1235,7 @@ static int run_one(uint64_t seed, uint64_t index, int inputs, bool verbose, cons
 // in one go (no interpreter needed): every virtual register is defined at function entry, operands never exceed the
 // register's size, no unreachable code.
 struct A64Gen {
-  Rng& r; a64::Compiler& cc; std::vector<a64::Gp> g; std::vector<int> gsz; std::vector<a64::Vec> v; a64::Gp p; Error err = Error::kOk; bool calls = false, lists = false;
+  Rng& r; a64::Compiler& cc; std::vector<a64::Gp> g; std::vector<int> gsz; std::vector<a64::Vec> v; std::vector<a64::Vec> fd; a64::Gp p; Error err = Error::kOk; bool calls = false, lists = false;   // fd: 64-bit scalar floating point registers
   A64Gen(Rng& r_, a64::Compiler& c) : r(r_), cc(c) {}
   void E(Error e) { if (e != Error::kOk && err == Error::kOk) err = e; }
   int any() { return int(r.below(uint32_t(g.size()))); }
@@ -1208,6 +1247,7 @@ struct A64Gen {
   void op() {
     static const InstId alu3[10] = {a64::Inst::kIdAdd, a64::Inst::kIdSub, a64::Inst::kIdAnd, a64::Inst::kIdOrr, a64::Inst::kIdEor, a64::Inst::kIdMul, a64::Inst::kIdUdiv, a64::Inst::kIdLsl, a64::Inst::kIdLsr, a64::Inst::kIdAsr};
     uint32_t k = r.below(v.empty() ? 14 : 20); if (calls && r.chance(6)) k = 20; if (lists && v.size() >= 4 && r.chance(5)) k = 22;
+    if (r.chance(8)) k = 30 + r.below(2); if (!fd.empty() && r.chance(20)) k = 40 + r.below(7); if (calls && !fd.empty() && r.chance(4)) k = 50;
     switch (k) {
       case 0: case 1: case 2: case 3: { int d = any(), a = any(), b = any(); int w = (gsz[size_t(d)] == 8 && gsz[size_t(a)] == 8 && gsz[size_t(b)] == 8 && r.chance(60)) ? 8 : 4; E(cc.emit(alu3[r.below(10)], R(d, w), R(a, w), R(b, w))); break; }
       case 4: { int d = any(), a = any(); int w = (gsz[size_t(d)] == 8 && gsz[size_t(a)] == 8 && r.chance(60)) ? 8 : 4; E(cc.emit(r.chance(50) ? a64::Inst::kIdAdd : a64::Inst::kIdSub, R(d, w), R(a, w), Imm(r.below(4096)))); break; }
@@ -1231,6 +1271,20 @@ struct A64Gen {
         FuncSignature sig(CallConvId::kCDecl); sig.set_ret_t<uint64_t>(); for (uint32_t q = 0; q < na; q++) sig.add_arg_t<uint64_t>();
         InvokeNode* inv = nullptr; E(cc.invoke(Out<InvokeNode*>(inv), R(t, 8), sig));
         if (inv) { for (uint32_t q = 0; q < na; q++) { int a = wide(); inv->set_arg(q, R(a, 8)); } inv->set_ret(0, R(d, 8)); } break; }
+      case 30: { int a = wide(), b = wide(); if (a < 0 || a == b) break; E(cc.ldp(R(a, 8), R(b, 8), a64::ptr(p, int32_t(r.below(30) * 16)))); break; }     // load pair (imm7 scaled by 8: up to 504)
+      case 31: { int a = any(), b = any(); int w = (gsz[size_t(a)] == 8 && gsz[size_t(b)] == 8 && r.chance(60)) ? 8 : 4; { a64::Gp base = cc.new_gp64(); E(cc.add(base, p, Imm(1024))); E(cc.stp(R(a, w), R(b, w), a64::ptr(base, int32_t(r.below(15) * 16)))); } break; }
+      case 40: { E(cc.ldr(fd[r.below(uint32_t(fd.size()))], a64::ptr(p, int32_t(r.below(64) * 8)))); break; }
+      case 41: { E(cc.str(fd[r.below(uint32_t(fd.size()))], a64::ptr(p, int32_t(1536 + r.below(60) * 8)))); break; }
+      case 42: case 43: { auto& d = fd[r.below(uint32_t(fd.size()))]; auto& a = fd[r.below(uint32_t(fd.size()))]; auto& b = fd[r.below(uint32_t(fd.size()))];
+        switch (r.below(4)) { case 0: E(cc.fadd(d, a, b)); break; case 1: E(cc.fmul(d, a, b)); break; case 2: E(cc.fsub(d, a, b)); break; default: E(cc.fmadd(d, a, b, fd[r.below(uint32_t(fd.size()))])); break; } break; }
+      case 44: { int x = wide(); if (x < 0) break; if (r.chance(50)) E(cc.fmov(fd[r.below(uint32_t(fd.size()))], R(x, 8))); else E(cc.fmov(R(x, 8), fd[r.below(uint32_t(fd.size()))])); break; }
+      case 45: { int x = wide(); if (x < 0) break; if (r.chance(50)) E(cc.scvtf(fd[r.below(uint32_t(fd.size()))], R(x, 8))); else E(cc.fcvtzs(R(x, 8), fd[r.below(uint32_t(fd.size()))])); break; }
+      case 46: { auto& a = fd[r.below(uint32_t(fd.size()))]; auto& b = fd[r.below(uint32_t(fd.size()))]; int d = any(); E(cc.fcmp(a, b)); E(cc.cset(R(d, 4), a64::CondCode::kMI)); break; }
+      case 50: { // call with mixed integer / floating point arguments (x0-x7, d0-d7, the rest on the stack) and a double result
+        int t = wide(); if (t < 0) break; uint32_t na = 1 + r.below(12);
+        FuncSignature sig(CallConvId::kCDecl); sig.set_ret_t<double>(); std::vector<bool> isfp; for (uint32_t q = 0; q < na; q++) { bool f = r.chance(50); isfp.push_back(f); if (f) sig.add_arg_t<double>(); else sig.add_arg_t<uint64_t>(); }
+        InvokeNode* inv = nullptr; E(cc.invoke(Out<InvokeNode*>(inv), R(t, 8), sig));
+        if (inv) { for (uint32_t q = 0; q < na; q++) { if (isfp[q]) inv->set_arg(q, fd[r.below(uint32_t(fd.size()))]); else inv->set_arg(q, R(wide(), 8)); } inv->set_ret(0, fd[r.below(uint32_t(fd.size()))]); } break; }
       case 22: case 23: case 24: { // register lists: the allocator must place the 2..4 list members in consecutive vector registers
         if (v.size() < 4) break; uint32_t n = 2 + r.below(3); uint32_t idx[4]; bool dup = false;
         for (uint32_t q = 0; q < n; q++) { idx[q] = r.below(uint32_t(v.size())); for (uint32_t z = 0; z < q; z++) if (idx[z] == idx[q]) dup = true; }
@@ -1254,7 +1308,9 @@ struct A64Gen {
     p = cc.new_gp_ptr(); f->set_arg(0, p);
     for (int i = 0; i < ngp; i++) { bool w8 = r.chance(60); g.push_back(w8 ? cc.new_gp64() : cc.new_gp32()); gsz.push_back(w8 ? 8 : 4); }
     for (int i = 0; i < nvec; i++) v.push_back(cc.new_vec128());
+    int nfd = r.chance(50) ? 0 : 1 + int(r.below(40)); for (int i = 0; i < nfd; i++) fd.push_back(cc.new_vec_d());
     for (size_t i = 0; i < g.size(); i++) E(cc.ldr(g[i], a64::ptr(p, int32_t(r.below(64) * 8))));
+    for (size_t i = 0; i < fd.size(); i++) E(cc.ldr(fd[i], a64::ptr(p, int32_t(r.below(64) * 8))));
     for (size_t i = 0; i < v.size(); i++) E(cc.ldr(v[i], a64::ptr(p, int32_t(r.below(30) * 16))));
     std::vector<Label> placed, pending;
     for (int n = 0; n < nitems; n++) {
@@ -1271,6 +1327,7 @@ struct A64Gen {
     }
     for (auto& l : pending) E(cc.bind(l));
     uint32_t off = 2048; for (size_t i = 0; i < g.size(); i++) { E(cc.str(g[i], a64::ptr(p, int32_t(off)))); off += 8; }
+    for (size_t i = 0; i < fd.size(); i++) { E(cc.str(fd[i], a64::ptr(p, int32_t(off)))); off += 8; }
     off = (off + 15u) & ~15u; for (size_t i = 0; i < v.size(); i++) { E(cc.str(v[i], a64::ptr(p, int32_t(off)))); off += 16; }
     int rv = wide(); a64::Gp ret = cc.new_gp64(); if (rv >= 0) E(cc.mov(ret, g[size_t(rv)].x())); else E(cc.mov(ret, Imm(0)));
     E(cc.ret(ret)); E(cc.end_func());
@@ -1307,10 +1364,121 @@ static void run_one_a64(uint64_t seed, uint64_t index, bool verbose) {
   printf("E\n");
 }
 
+// ------------------------------------------------------------------------------------------------ x86-32 (validator only)
+// 32-bit code cannot be executed in this 64-bit process: the allocated code is validated, not run. 7 allocable GP registers
+// (8-bit operands only in al/cl/dl/bl), 8 XMM registers, arguments on the stack (cdecl) or in ecx/edx (fastcall).
+struct X32Gen {
+  Rng& r; x86::Compiler& cc; std::vector<x86::Gp> g; std::vector<int> gsz; std::vector<x86::Vec> v; x86::Gp p; Error err = Error::kOk; bool calls = false;
+  X32Gen(Rng& r_, x86::Compiler& c) : r(r_), cc(c) {}
+  void E(Error e) { if (e != Error::kOk && err == Error::kOk) err = e; }
+  int any() { return int(r.below(uint32_t(g.size()))); }
+  int atleast(int sz) { for (int t = 0; t < 16; t++) { int x = any(); if (gsz[size_t(x)] >= sz) return x; } for (size_t x = 0; x < g.size(); x++) if (gsz[x] >= sz) return int(x); return -1; }
+  x86::Gp R(int x, int w) { return view(g[size_t(x)], w); }
+  int pw(int maxw) { static const int ws[3] = {1, 2, 4}; for (;;) { int w = ws[r.below(3)]; if (w <= maxw) return w; } }
+  void cmp_any() { int a = any(); int w = pw(gsz[size_t(a)]); if (r.chance(40)) E(cc.emit(x86::Inst::kIdCmp, R(a, w), Imm(int8_t(r.next())))); else { int b = atleast(w); if (b < 0) b = a; E(cc.emit(r.chance(25) ? x86::Inst::kIdTest : x86::Inst::kIdCmp, R(a, w), R(b, w))); } }
+  void op() {
+    uint32_t k = r.below(v.empty() ? 20 : 26); if (calls && r.chance(7)) k = 30;
+    switch (k) {
+      case 0: case 1: { int d = any(), a = any(); int w = pw(std::min(gsz[size_t(d)], gsz[size_t(a)])); E(cc.emit(x86::Inst::kIdMov, R(d, w), R(a, w))); break; }
+      case 2: { int d = any(); int w = pw(gsz[size_t(d)]); E(cc.emit(x86::Inst::kIdMov, R(d, w), Imm(w == 1 ? int64_t(int8_t(r.next())) : w == 2 ? int64_t(int16_t(r.next())) : int64_t(int32_t(r.next()))))); break; }
+      case 3: case 4: case 5: { int d = any(), a = r.chance(8) ? d : any(); int w = pw(std::min(gsz[size_t(d)], gsz[size_t(a)])); E(cc.emit(kAlu[r.below(5)], R(d, w), R(a, w))); break; }
+      case 6: { int d = any(); int w = pw(gsz[size_t(d)]); static const int64_t im[5] = {0, -1, 1, 100, -128}; E(cc.emit(kAlu[r.below(5)], R(d, w), Imm(im[r.below(5)]))); break; }
+      case 7: { int d = atleast(2), a = atleast(2); if (d < 0 || a < 0) break; int w = std::min(gsz[size_t(d)], gsz[size_t(a)]) >= 4 && r.chance(60) ? 4 : 2; E(cc.emit(x86::Inst::kIdImul, R(d, w), R(a, w))); break; }
+      case 8: case 9: { int d = any(), c = any(); int w = pw(gsz[size_t(d)]); E(cc.emit(kSh[r.below(5)], R(d, w), R(c, 1))); break; }
+      case 10: { int d = any(); int w = pw(gsz[size_t(d)]); E(cc.emit(kSh[r.below(5)], R(d, w), Imm(r.below(uint32_t(8 * w))))); break; }
+      case 11: { int d = any(); int w = pw(gsz[size_t(d)]); E(cc.emit(kUn[r.below(4)], R(d, w))); break; }
+      case 12: { int hi = atleast(4), lo = atleast(4), sx = atleast(4); if (hi < 0 || hi == lo) break; E(cc.emit(x86::Inst::kIdMul, R(hi, 4), R(lo, 4), R(sx, 4))); break; }
+      case 13: { int hi = atleast(4), lo = atleast(4), sx = atleast(4); if (hi < 0 || hi == lo || sx == hi) break; E(cc.emit(x86::Inst::kIdXor, R(hi, 4), R(hi, 4))); E(cc.emit(x86::Inst::kIdOr, R(sx, 4), Imm(1))); E(cc.emit(x86::Inst::kIdDiv, R(hi, 4), R(lo, 4), R(sx, 4))); break; }
+      case 14: { cmp_any(); int d = atleast(2), a = atleast(2); if (d < 0) break; int w = std::min(gsz[size_t(d)], gsz[size_t(a)]) >= 4 && r.chance(60) ? 4 : 2; E(cc.emit(kCmov[r.below(16)], R(d, w), R(a, w))); break; }
+      case 15: { cmp_any(); E(cc.emit(kSet[r.below(16)], R(any(), 1))); break; }
+      case 16: { int d = atleast(4), a = atleast(4), b = atleast(4); if (d < 0) break; E(cc.emit(x86::Inst::kIdLea, R(d, 4), r.chance(70) ? x86::ptr(R(a, 4), R(b, 4), r.below(4), int32_t(r.below(4096)) - 2048) : x86::ptr(R(a, 4), int32_t(r.below(4096))))); break; }
+      case 17: { int a = any(); int w1 = pw(std::min(gsz[size_t(a)], 2)); int d = atleast(w1 * 2); if (d < 0) break; E(cc.emit(r.chance(50) ? x86::Inst::kIdMovzx : x86::Inst::kIdMovsx, R(d, gsz[size_t(d)] >= 4 && r.chance(70) ? 4 : 2 > w1 ? 2 : 4), R(a, w1))); break; }
+      case 18: { int d = any(); int w = pw(gsz[size_t(d)]); if (r.chance(70)) E(cc.emit(x86::Inst::kIdMov, R(d, w), x86::ptr(p, int32_t(r.below(64) * 8), uint32_t(w)))); else { int x = atleast(4); if (x < 0) break; E(cc.emit(x86::Inst::kIdMov, R(d, w), x86::ptr(p, R(x, 4), 0, int32_t(r.below(4) * 64), uint32_t(w)))); } break; }
+      case 19: { int a = any(); int w = pw(gsz[size_t(a)]); E(cc.emit(x86::Inst::kIdMov, x86::ptr(p, int32_t(512 + r.below(200) * 8), uint32_t(w)), R(a, w))); break; }
+      case 20: { E(cc.emit(x86::Inst::kIdMovdqu, v[r.below(uint32_t(v.size()))], x86::ptr(p, int32_t(r.below(60) * 8), 16))); break; }
+      case 21: { E(cc.emit(x86::Inst::kIdMovdqu, x86::ptr(p, int32_t(1024 + r.below(60) * 16), 16), v[r.below(uint32_t(v.size()))])); break; }
+      case 22: case 23: { static const InstId vb[5] = {x86::Inst::kIdPaddd, x86::Inst::kIdPsubd, x86::Inst::kIdPxor, x86::Inst::kIdPand, x86::Inst::kIdPmuludq}; auto& d = v[r.below(uint32_t(v.size()))]; auto& a = v[r.below(uint32_t(v.size()))]; E(cc.emit(vb[r.below(5)], d, a)); break; }
+      case 24: { auto& d = v[r.below(uint32_t(v.size()))]; auto& a = v[r.below(uint32_t(v.size()))]; E(cc.emit(x86::Inst::kIdMovdqa, d, a)); break; }
+      case 25: { int x = atleast(4); if (x < 0) break; if (r.chance(50)) E(cc.emit(x86::Inst::kIdMovd, v[r.below(uint32_t(v.size()))], R(x, 4))); else E(cc.emit(x86::Inst::kIdMovd, R(x, 4), v[r.below(uint32_t(v.size()))])); break; }
+      default: { // cdecl call through a register: every argument on the stack
+        int t = atleast(4), d = atleast(4); if (t < 0) break; uint32_t na = r.below(7);
+        FuncSignature sig(CallConvId::kCDecl); sig.set_ret_t<uint32_t>(); for (uint32_t q = 0; q < na; q++) sig.add_arg_t<uint32_t>();
+        InvokeNode* inv = nullptr; E(cc.invoke(Out<InvokeNode*>(inv), R(t, 4), sig));
+        if (inv) { for (uint32_t q = 0; q < na; q++) inv->set_arg(q, R(atleast(4), 4)); inv->set_ret(0, R(d, 4)); } break; }
+    }
+  }
+  FuncNode* build(int ngp, int nvec, int nitems, int flowpct, int nargs, bool fastcall) {
+    FuncSignature sig(fastcall ? CallConvId::kFastCall : CallConvId::kCDecl); sig.set_ret_t<uint32_t>(); sig.add_arg_t<uint32_t*>(); for (int q = 0; q < nargs; q++) sig.add_arg_t<uint32_t>();
+    FuncNode* f = cc.add_func(sig);
+    p = cc.new_gp32(); f->set_arg(0, p);
+    static const int sizes[6] = {4, 4, 4, 2, 1, 4};
+    for (int i = 0; i < ngp; i++) { int sz = sizes[r.below(6)]; g.push_back(sz == 1 ? cc.new_gp8() : sz == 2 ? cc.new_gp16() : cc.new_gp32()); gsz.push_back(sz); }
+    for (int i = 0; i < nvec; i++) v.push_back(cc.new_xmm());
+    int bound = 0;
+    for (size_t i = 0; i < g.size(); i++) { if (gsz[i] == 4 && bound < nargs) { f->set_arg(uint32_t(++bound), g[i]); continue; } E(cc.emit(x86::Inst::kIdMov, g[i], x86::ptr(p, int32_t(r.below(64) * 8), uint32_t(gsz[i])))); }
+    for (size_t i = 0; i < v.size(); i++) E(cc.emit(x86::Inst::kIdMovdqu, v[i], x86::ptr(p, int32_t(r.below(60) * 8), 16)));
+    std::vector<Label> placed, pending;
+    for (int n = 0; n < nitems; n++) {
+      if (int(r.below(100)) < flowpct) {
+        uint32_t y = r.below(10);
+        if (y < 4) { Label l; if (!pending.empty() && r.chance(40)) l = pending[r.below(uint32_t(pending.size()))]; else { l = cc.new_label(); pending.push_back(l); } cmp_any(); E(cc.emit(kJcc[r.below(16)], l)); }
+        else if (y < 7) { Label l; if (!pending.empty() && r.chance(75)) { uint32_t q = r.below(uint32_t(pending.size())); l = pending[q]; pending.erase(pending.begin() + q); } else l = cc.new_label(); E(cc.bind(l)); placed.push_back(l); }
+        else if (y < 9) { if (placed.empty()) continue; cmp_any(); E(cc.emit(kJcc[r.below(16)], placed[r.below(uint32_t(placed.size()))])); }
+        else { if (pending.empty()) continue; uint32_t q = r.below(uint32_t(pending.size())); Label l2 = pending[q]; pending.erase(pending.begin() + q);
+          Label l; if (!pending.empty() && r.chance(40)) l = pending[r.below(uint32_t(pending.size()))]; else { l = cc.new_label(); pending.push_back(l); }
+          E(cc.jmp(l)); E(cc.bind(l2)); placed.push_back(l2); }
+      } else op();
+    }
+    for (auto& l : pending) E(cc.bind(l));
+    uint32_t off = 2048; for (size_t i = 0; i < g.size(); i++) { E(cc.emit(x86::Inst::kIdMov, x86::ptr(p, int32_t(off), uint32_t(gsz[i])), g[i])); off += 8; }
+    for (size_t i = 0; i < v.size(); i++) { E(cc.emit(x86::Inst::kIdMovdqu, x86::ptr(p, int32_t(off), 16), v[i])); off += 16; }
+    int rv = atleast(4); x86::Gp ret = cc.new_gp32(); if (rv >= 0) E(cc.mov(ret, g[size_t(rv)])); else E(cc.mov(ret, Imm(0)));
+    E(cc.ret(ret)); E(cc.end_func());
+    return f;
+  }
+};
+
+static void run_one_x32(uint64_t seed, uint64_t index, bool verbose) {
+  Rng r(seed * 1000003ull + index + 0x320032ull);
+  int cls = int(index % 5), ngp;
+  switch (cls) { case 0: ngp = 1 + int(r.below(5)); break; case 1: ngp = 5 + int(r.below(4)); break; case 2: ngp = 7 + int(r.below(3)); break; case 3: ngp = 10 + int(r.below(20)); break; default: ngp = 30 + int(r.below(120)); break; }
+  int nvec = r.chance(50) ? 0 : (r.chance(50) ? 1 + int(r.below(7)) : 7 + int(r.below(10)));
+  int nargs = int(r.below(6)); bool fastcall = r.chance(40);
+  if (nvec > 0) { fastcall = true; nargs = int(r.below(2)); }       // 16-byte slots re-align the stack: stack arguments would go through the SA register (not modelled)
+  printf("P %llu x86-32 ngp=%d nvec=%d nargs=%d %s\n", (unsigned long long)index, ngp, nvec, nargs, fastcall ? "fastcall" : "cdecl");
+  Environment env(Arch::kX86); CodeHolder code; code.init(env);
+  ErrH eh; code.set_error_handler(&eh);
+  x86::Compiler cc(&code);
+  X32Gen gen(r, cc); gen.calls = r.chance(50);
+  FuncNode* func = gen.build(ngp, nvec, 5 + int(r.below(cls >= 3 ? 120 : 60)), r.below(4) == 0 ? 0 : int(r.below(35)), nargs, fastcall);
+  if (gen.err != Error::kOk || eh.err != Error::kOk) { printf("G emit-error %u %s\nE\n", unsigned(eh.err != Error::kOk ? eh.err : gen.err), eh.msg.c_str()); return; }
+  Dumper D(cc, func);
+  std::vector<PreNode> pre; std::map<BaseNode*, size_t> idx; DumpResult dr;
+  dump_source(D, pre, idx, dr);
+  Error e = cc.run_passes();
+  if (e != Error::kOk) { printf("G ra-error %u %s\nE\n", unsigned(e), eh.msg.c_str()); return; }
+  if (dr.ok) dump_target(D, pre, idx, dr);
+  if (!dr.ok) printf("U %s\n", dr.why.c_str());
+  else { for (auto& s : dr.S) printf("S %s\n", s.c_str()); for (auto& s : dr.T) printf("T %s\n", s.c_str()); }
+  if (verbose) { String sb; FormatOptions fo; for (BaseNode* n = cc.first_node(); n; n = n->next()) { sb.clear(); Formatter::format_node(sb, fo, &cc, n); printf("# %s\n", sb.data()); } }
+  x86::Assembler as(&code);
+  e = cc.serialize_to(&as);
+  if (e != Error::kOk) printf("X serialize-error %u %s\n", unsigned(e), eh.msg.c_str()); else printf("X not-executed\n");
+  printf("E\n");
+}
+
 int main(int argc, char** argv) {
   if (argc >= 4 && !strcmp(argv[1], "probe")) { g_features = 255; run_one(1, 0, atoi(argv[3]), argc > 4 && atoi(argv[4]) != 0, argv[2]); return 0; }
   if (argc >= 4 && !strcmp(argv[1], "jt7")) { g_jt_mode = 7; g_features = 127; for (uint64_t i = 0; i < strtoull(argv[2], nullptr, 10); i++) { run_one(424242, i, atoi(argv[3]), false); fflush(stdout); } return 0; }
   if (getenv("C05_JT_SHARE")) g_jt_mode = atoi(getenv("C05_JT_SHARE"));
+  if (argc >= 2 && !strcmp(argv[1], "tags")) {       // "<mnemonic> <instruction id> <name of that id>" for every mnemonic given (x86)
+    for (int i = 2; i < argc; i++) { InstId id = InstAPI::string_to_inst_id(Arch::kX64, argv[i], strlen(argv[i])); String nm; InstAPI::inst_id_to_string(Arch::kX64, id, InstStringifyOptions::kNone, nm);
+      printf("%s %u %s\n", argv[i], unsigned(id), nm.data()); }
+    return 0; }
+  if (argc >= 6 && !strcmp(argv[1], "skel")) { g_skel = true; g_features = 1023; uint64_t sd = strtoull(argv[2], nullptr, 10), fi = strtoull(argv[3], nullptr, 10), cn = strtoull(argv[4], nullptr, 10);
+    for (uint64_t i = fi; i < fi + cn; i++) { run_one(sd, i, atoi(argv[5]), argc > 6 && atoi(argv[6]) != 0); fflush(stdout); } return 0; }
+  if (argc >= 5 && !strcmp(argv[1], "x32")) { uint64_t sd = strtoull(argv[2], nullptr, 10), fi = strtoull(argv[3], nullptr, 10), cn = strtoull(argv[4], nullptr, 10);
+    for (uint64_t i = fi; i < fi + cn; i++) { run_one_x32(sd, i, argc > 5 && atoi(argv[5]) != 0); fflush(stdout); } return 0; }
   if (argc >= 5 && !strcmp(argv[1], "a64")) { uint64_t sd = strtoull(argv[2], nullptr, 10), fi = strtoull(argv[3], nullptr, 10), cn = strtoull(argv[4], nullptr, 10);
     if (argc > 6) g_a64_lists = atoi(argv[6]) != 0;     // register lists (ld1/st1 with 2..4 registers) on/off
     for (uint64_t i = fi; i < fi + cn; i++) { run_one_a64(sd, i, argc > 5 && atoi(argv[5]) != 0); fflush(stdout); } return 0; }
